@@ -1,5 +1,6 @@
-# Per-property registry used by ./check: which theorems, which tie lemmas,
-# which drivers, how failing cases map to recorded findings.
+# Per-property registry used by ./check.  One file per property: lib/props/<id>.py defining SPEC = dict(...).
+# (which theorems, which tie lemmas, which drivers, how failing cases map to recorded findings)
+import glob, importlib.util, os
 
 TRUSTED_BASE_COMMON = [
     'Coq 8.16.1 kernel incl. its vm_compute machine and the native Uint63/Float64 primitives (no native_compute)',
@@ -10,18 +11,9 @@ TRUSTED_BASE_COMMON = [
 ]
 
 PROPS = {}
-
-PROPS['C12'] = dict(
-    props_file='Props/C12.v', props_mod='Props.C12',
-    proof_files=['Proofs/Closest.v', 'Proofs/LeafTie.v', 'Drv/Closest.v'],
-    tie_vo=['Proofs/LeafTie.vo'],
-    drivers=[dict(name='closest', drv_mod='Drv.Closest', drv_file='Drv/Closest.v', shard=300)],
-    rule='exhaustive: every map over every subset of a small key universe with outputs from a small alphabet '
-         '(quick: 6 keys x 3 outputs; thorough: 12 keys, sampled patterns), plus seeded random full-size maps '
-         '(identity, quantiser, non-monotonic, constant, single entry, sparse user map); requests = every supported key, '
-         'its neighbours, midpoints +-1, -50, 305 and random ones. Non-trivial = at least two supported inputs; '
-         'distinct = distinct (map, requests, observation) terms.',
-    assumptions=['PWM-map outputs are never -1 (the sentinel of ExtractKeysWithDistinctValues); outputs are PWM values',
-                 'getClosest tie: gen/Leaf.v regenerated from internal/util/math.go, equal to the model by reflexivity'],
-    finding_codes={}, finding_text={},
-)
+_here = os.path.dirname(os.path.abspath(__file__))
+for _p in sorted(glob.glob(os.path.join(_here, 'props', 'C*.py'))):
+    _spec = importlib.util.spec_from_file_location('prop_' + os.path.basename(_p)[:-3], _p)
+    _m = importlib.util.module_from_spec(_spec)
+    _spec.loader.exec_module(_m)
+    PROPS[os.path.basename(_p)[:-3]] = _m.SPEC
